@@ -36,6 +36,11 @@ type rItem struct {
 	XML  string `json:"xml,omitempty"`  // rendered element (filled by render)
 	Deep int    `json:"deep,omitempty"` // stanza: its (unknown) payload is nested this deep; the rendered text is not stored
 	Repl bool   `json:"repl,omitempty"` // serr (client): the StreamError event handler replaces the connection before it returns, as a StreamManager does
+	// stanza of a given size: the rendered element is EXACTLY Size bytes long on the wire (Size > 0), as one long text
+	// (Shape 0) or as many small children (Shape 1). Like a deep payload it is generated from its parameters on both
+	// sides and not stored in case files; the model sees (kind, id) only: one routing per element whatever its size.
+	Size  int `json:"size,omitempty"`
+	Shape int `json:"shape,omitempty"`
 }
 
 // MarshalJSON: the rendering of a deeply nested payload (megabytes) is not written to case files and replays;
@@ -43,7 +48,7 @@ type rItem struct {
 func (it rItem) MarshalJSON() ([]byte, error) {
 	type plain rItem
 	p := plain(it)
-	if p.Deep > 0 {
+	if p.Deep > 0 || p.Size > 0 {
 		p.XML = ""
 	}
 	return json.Marshal(p)
@@ -183,9 +188,76 @@ func renderStanza(kind, id, v int) string {
 	}
 }
 
+// renderSized: a stanza whose serialization is exactly it.Size bytes long (ws: as a websocket message, where the
+// element names its namespace itself), filled with one long text (Shape 0) or with many small children (Shape 1).
+func (it *rItem) renderSized(ws bool) {
+	ns := ""
+	if ws {
+		ns = " xmlns='jabber:client'"
+	}
+	var open, clos string
+	switch it.Kind {
+	case 0:
+		open, clos = fmt.Sprintf("<message%s id='%d' type='chat'>", ns, it.ID), "</message>"
+		if it.Shape == 0 {
+			open, clos = open+"<body>", "</body>"+clos
+		}
+	case 1:
+		open, clos = fmt.Sprintf("<presence%s id='%d'>", ns, it.ID), "</presence>"
+		if it.Shape == 0 {
+			open, clos = open+"<status>", "</status>"+clos
+		}
+	default:
+		it.Kind = 2
+		open, clos = fmt.Sprintf("<iq%s id='%d' type='get'><q xmlns='urn:example:big'>", ns, it.ID), "</q></iq>"
+	}
+	room := it.Size - len(open) - len(clos)
+	if room < 0 {
+		room = 0
+	}
+	var b strings.Builder
+	b.Grow(it.Size + 64)
+	b.WriteString(open)
+	if it.Shape == 0 {
+		const line = "the quick brown fox jumps over the lazy dog &amp; back "
+		for room >= len(line) {
+			b.WriteString(line)
+			room -= len(line)
+		}
+		b.WriteString(strings.Repeat("x", room))
+	} else {
+		const child = "<x xmlns='urn:example:ext'/>"
+		for room >= len(child) {
+			b.WriteString(child)
+			room -= len(child)
+		}
+		b.WriteString(strings.Repeat(" ", room))
+	}
+	b.WriteString(clos)
+	it.XML = b.String()
+}
+
+// sizedBytes: the bytes of the history's sized elements (time allowances of the runners grow with it).
+func (in recvIn) sizedBytes() int {
+	n := 0
+	for _, it := range in.Items {
+		n += it.Size
+	}
+	return n
+}
+
+// sizeAllowance: extra time the runners grant a history for its sized elements (2 s per MiB: generous).
+func (in recvIn) sizeAllowance() time.Duration {
+	return time.Duration(in.sizedBytes()>>19) * time.Second
+}
+
 func (it *rItem) render() {
 	switch it.T {
 	case "stanza":
+		if it.Size > 0 {
+			it.renderSized(false)
+			return
+		}
 		if it.Deep > 0 {
 			// an unknown payload (iq), or an unknown child of <error/> (message), nested as deep as the peer likes
 			nest := strings.Repeat("<a>", it.Deep) + strings.Repeat("</a>", it.Deep)
@@ -625,7 +697,7 @@ func runRecv(in recvIn) Sx {
 	}
 	select {
 	case <-done:
-	case <-time.After(5 * time.Second):
+	case <-time.After(5*time.Second + in.sizeAllowance()):
 		lg.mu.Lock()
 		defer lg.mu.Unlock()
 		return L(SBytes("recv-loop-hung"), LS(lg.sync_))
@@ -901,6 +973,23 @@ func runRecvWS(in recvIn) Sx {
 				if err != nil {
 					break
 				}
+				if it.Size > 0 {
+					// a sized element: a short first frame, continuation frames of 60 000 bytes, the rest in the last
+					x := []byte(it.XML)
+					w.Write(x[:len(x)/3%1000+1])
+					x = x[len(x)/3%1000+1:]
+					for len(x) > 60000 {
+						if _, err := w.Write(x[:60000]); err != nil {
+							break
+						}
+						x = x[60000:]
+					}
+					w.Write(x)
+					if w.Close() != nil {
+						break
+					}
+					continue
+				}
 				h := len(it.XML) / 2
 				w.Write([]byte(it.XML[:h])) // first frame, FIN=0
 				w.Write([]byte(it.XML[h:])) // continuation frame
@@ -1000,7 +1089,7 @@ func runRecvWS(in recvIn) Sx {
 	}
 	select {
 	case <-sendDone:
-	case <-time.After(5 * time.Second):
+	case <-time.After(5*time.Second + in.sizeAllowance()):
 		return L(SBytes("ws-server-stuck"))
 	}
 	if in.LateRecv != "" {
@@ -1030,7 +1119,7 @@ func runRecvWS(in recvIn) Sx {
 		}
 		want++
 	}
-	deadline := time.Now().Add(8 * time.Second)
+	deadline := time.Now().Add(8*time.Second + in.sizeAllowance())
 	for time.Now().Before(deadline) {
 		lg.mu.Lock()
 		n := len(lg.async)
